@@ -1,16 +1,8 @@
 (* Theorems over the regenerated inventory of memoisation / mutable-state sites (C10), and the lemma that says why the
    admissible kinds are harmless: a memo whose key determines what the function reads is transparent; one whose key is
    coarser is not. *)
-From Verif Require Import GenState GenStateThm GenStateSites Gen_Sites.
+From Verif Require Import GenState GenStateThm GenStateSites Gen_Sites Gen_Uniq.
 Open Scope N_scope.
-
-(* a memo table looked up through a projection of the call's arguments (what @lru_cache does when an argument's
-   __eq__/__hash__ see less than the function reads, or when `self` is not part of the key) *)
-Definition proj_call (proj : ckey -> ckey) (f : ckey -> str) (maxsize : option nat) (c : cache) (k : ckey) : cache * str :=
-  match cache_get c (proj k) with
-  | Some v => ((proj k, v) :: cache_remove c (proj k), v)
-  | None => let v := f k in (cache_trim maxsize ((proj k, v) :: c), v)
-  end.
 
 (* if the function only reads what the key keeps, the table is transparent ... *)
 Theorem proj_cache_transparent (proj : ckey -> ckey) (g : ckey -> str) maxsize c k :
@@ -42,3 +34,27 @@ Proof. vm_compute. reflexivity. Qed.
 Theorem uniq_filters_lemma :
   forallb (fun f => filter_ok f || str_in (f_lang f) known_foldable_langs) g_uniq_filters = true.
 Proof. vm_compute. reflexivity. Qed.
+
+(* every store on a long-lived object in the render phase is classified (reset per file -- with the translated reset facts --,
+   overwritten per generate_all call, memo of a pure function, or reviewed setup code); a new store breaks this *)
+Definition reset_facts : bool := generate_code_resets_uniq && generate_code_resets_line_pps.
+
+Theorem stores_classified_lemma : forallb (store_ok reset_facts) g_stores = true.
+Proof. vm_compute. reflexivity. Qed.
+
+Theorem sites_admissible_strict_lemma : forallb site_ok g_sites = true.
+Proof. vm_compute. reflexivity. Qed.
+
+(* non-vacuity of the premise: with an inadmissible site in the table the model's memo returns a stale value ... *)
+Example inadmissible_site_is_observable :
+  let bad := {| s_file := []; s_name := []; s_kind := KModuleGlobal; s_params := []; s_flag := false; s_key := [];
+                s_value_mutable := false; s_value_mutated := false |} in
+  let c1 := fst (proj_call (memo_proj [bad] 0) snd None [] (1, [65])) in
+  snd (proj_call (memo_proj [bad] 0) snd None c1 (1, [66])) = [65].
+Proof. vm_compute. reflexivity. Qed.
+
+(* ... and with an unclassified render-phase store PPeek sees what earlier files left *)
+Example unclassified_store_leaks :
+  let bad := {| st_file := []; st_fn := []; st_target := [120]; st_root := RSelf; st_phase := SRender |} in
+  stores_leak true [bad] = true /\ stores_leak true g_stores = false.
+Proof. vm_compute. split; reflexivity. Qed.
